@@ -37,6 +37,9 @@ func init() {
 
 func runC12(c *eng.Ctx) {
 	p := c.P
+	rowsInsideFirstRowsFamilyRange(c)
+	leafShipsEveryGroup(c)
+	responseErrorAlwaysExamined(c)
 
 	// ---- 0. per-node "not found" is produced only for a metric / tag key the node really lacks (shared with C10) -----------------
 	c.Rule("ERRFLOW", "index.metricMetaDatabase{empty match is not an error}", func() { emptyMatchIsNotAnError(c) })
